@@ -434,3 +434,69 @@ def C02_transpose_pair_family():
 
 
 ALL["C02_transpose_pair_family"] = C02_transpose_pair_family
+
+
+# --------------------------------------------------------------------------- T10 reshape pairs
+def C02_reshape_pair_family():
+    """Reshape(x -> mid) -> k elementwise ops (k = 0, 1, 2; side operands: rank-0 scalar, size-1 constants of rank 1..3,
+    full constants, graph inputs; CastLike) -> Reshape(-> out) for source/intermediate/final shapes of rank 1..3 (final equal
+    to the source shape or not); intermediates optionally graph outputs / read by a second consumer.
+    remove_redundant_reshape_pairs_ir must change no output (value, shape, dtype) and leave no false declaration."""
+    from onnx import helper, TensorProto, numpy_helper
+    rng = np.random.default_rng(11)
+    n = 0
+    shapes = [((6,), (2, 3), (6,)), ((2, 3), (6,), (2, 3)), ((2, 3), (3, 2), (2, 3)), ((2, 3, 4), (6, 4), (2, 3, 4)), ((24,), (2, 3, 4), (24,)),
+              ((2, 3), (6,), (3, 2)), ((6,), (2, 3), (1, 6)), ((2, 3, 4), (24,), (2, 3, 4)), ((6,), (1, 6), (6,))]
+    sides = ("scalar", "ones1", "ones2", "ones3", "const_full", "input_full")
+    for src, mid, dst in shapes:
+        chains = [[]] + [[(op, "scalar")] for op in ("Relu", "Tanh", "Cast", "Clip", "Elu")] + [[(op, side)] for op in ("Max", "Min", "CastLike") for side in sides]
+        chains += [[("Relu", "scalar"), ("Max", side)] for side in ("scalar", "ones2", "input_full")] + [[("Max", "ones1"), ("Min", "ones2")]]
+        for chain in chains:
+            for variant in ("plain", "mid_is_output", "mid_second_consumer", "t1_out_is_output"):
+                if variant.startswith("mid") and not chain:
+                    continue
+                inits, extra_inputs, nodes = [], [], []
+                inits.append(numpy_helper.from_array(np.asarray(mid, np.int64), "s1"))
+                inits.append(numpy_helper.from_array(np.asarray(dst, np.int64), "s2"))
+                nodes.append(helper.make_node("Reshape", ["x", "s1"], ["t1o"], name="t1"))
+                cur, vis = "t1o", [helper.make_tensor_value_info("t1o", TensorProto.FLOAT, list(mid))]
+                for k, (op, side) in enumerate(chain):
+                    dname = f"c{k}"
+                    if side.startswith("ones"):
+                        r = int(side[4:])
+                        nm = f"side{k}"
+                        inits.append(numpy_helper.from_array(np.full((1,) * r, 0.25, np.float32), nm))
+                        nodes.append(helper.make_node(op, [cur, nm], [dname], name=f"op{k}"))
+                        out_rank = len(mid) if op == "CastLike" else max(r, len(mid))
+                        vis.append(helper.make_tensor_value_info(dname, TensorProto.FLOAT, [1] * (out_rank - len(mid)) + list(mid)))
+                    else:
+                        nodes.append(_chain_op(helper, numpy_helper, op, cur, dname, k, side, mid, inits, extra_inputs, rng))
+                        vis.append(helper.make_tensor_value_info(dname, TensorProto.FLOAT, list(mid)))
+                    cur = dname
+                nodes.append(helper.make_node("Reshape", [cur, "s2"], ["t2o"], name="t2"))
+                nodes.append(helper.make_node("Neg", ["t2o"], ["y"], name="tail"))
+                vis.append(helper.make_tensor_value_info("t2o", TensorProto.FLOAT, list(dst)))
+                outs = [helper.make_tensor_value_info("y", TensorProto.FLOAT, list(dst))]
+                if variant == "mid_is_output":
+                    outs.append(helper.make_tensor_value_info("c0", TensorProto.FLOAT, None))
+                elif variant == "mid_second_consumer":
+                    nodes.append(helper.make_node("Abs", ["c0"], ["z"], name="abs2"))
+                    outs.append(helper.make_tensor_value_info("z", TensorProto.FLOAT, None))
+                elif variant == "t1_out_is_output":
+                    outs.append(helper.make_tensor_value_info("t1o", TensorProto.FLOAT, list(mid)))
+                g_in = [helper.make_tensor_value_info("x", TensorProto.FLOAT, list(src))] + [helper.make_tensor_value_info(nm, TensorProto.FLOAT, shp) for nm, shp in extra_inputs]
+                g = helper.make_graph(nodes, "g", g_in, outs, initializer=inits, value_info=vis)
+                m = helper.make_model(g, opset_imports=[helper.make_opsetid("", 21)])
+                m.ir_version = 10
+                feeds = {"x": rng.standard_normal(src).astype(np.float32)}
+                for nm, shp in extra_inputs:
+                    feeds[nm] = rng.standard_normal(shp).astype(np.float32)
+                what = f"Reshape({list(src)}->{list(mid)}) -> {[f'{op}({side})' for op, side in chain]} -> Reshape(->{list(dst)}) [{variant}]"
+                ok, detail = check_pass(m, _single("remove_redundant_reshape_pairs_ir"), feeds, what)
+                if ok is False:
+                    return False, detail
+                n += 1 if ok else 0
+    return True, f"{n} reshape-pair graphs unchanged and truthfully annotated"
+
+
+ALL["C02_reshape_pair_family"] = C02_reshape_pair_family
